@@ -116,7 +116,7 @@ class AsyncioTransportStreamSocketAdapter(AsyncStreamTransport):
         return await self.__protocol.receive_data_into(buffer)
 
     async def send_all(self, data: bytes | bytearray | memoryview) -> None:
-        if isinstance(data, memoryview) and data.itemsize != 1:
+        if isinstance(data, memoryview) and (data.itemsize != 1 or data.ndim != 1):
             # asyncio transports slice the remainder of a partial write by items with a number of bytes
             data = data.cast("B")
         self.__transport.write(data)
